@@ -99,8 +99,22 @@ def r20_2_successor_recursion(ctx):
                 continue
             n += 1
             ctx.bad("R20.2", f"{f.qualname}:recursion-along-successors", f"{f.fq} calls itself on a successor block ({u(c)[:60]}): recursion depth is proportional to the number of blocks, so a long enough program raises RecursionError", f"{f.module.rel}:{c.lineno}")
+    # plain functions and nested helpers: a call of the function's own name whose argument comes from the successors of its parameter
+    for f in ctx.model.iter_funcs():
+        if not (f.module.name.startswith("pyteal.ir.") or f.module.name.startswith("pyteal.compiler.")) or f.module.name.startswith("pyteal.compiler.sourcemap"):
+            continue
+        for c in walk_local(f.node):
+            if not (isinstance(c, ast.Call) and isinstance(c.func, ast.Name) and c.func.id == f.name and c.args):
+                continue
+            arg = c.args[0]
+            src = q.rtext(f.node, arg)
+            loops = [a for a in q.ancestors(c) if isinstance(a, ast.For)]
+            over_successors = any(any(k in u(l.iter) for k in ("getOutgoing()", "nextBlock", "trueBlock", "falseBlock")) for l in loops)
+            if over_successors or any(k in src for k in ("getOutgoing()", "nextBlock", "trueBlock", "falseBlock")):
+                n += 1
+                ctx.bad("R20.2", f"{f.qualname}:recursion-along-successors", f"{f.fq} calls itself for each successor block ({u(c)[:60]}): recursion depth is proportional to the length of the longest path, so a long enough program raises RecursionError", f"{f.module.rel}:{c.lineno}")
     # the walks that were made iterative stay iterative
-    for qual in ("TealBlock.addIncoming", "TealBlock.validateTree"):
+    for qual in ("TealBlock.addIncoming", "TealBlock.validateTree", "TealBlock.validateSlots"):
         f = ctx.model.find_func(qual, "pyteal.ir.tealblock")
         rec = [c for c in q.calls_named(f.node, f.name, into_nested=False)]
         ctx.check(not rec and any(isinstance(x, ast.While) for x in walk_local(f.node)), "R20.2", f"{qual}:iterative", f"{qual} must walk the graph iteratively", f.where, fact={})
@@ -177,7 +191,10 @@ def run(ctx):
     from rules.lowering_sem import r01_3e_constructs
 
     _c05.r05_4_construct_typing(ctx)  # well-typed constructs (anytype mixed with a concrete type included) are accepted (shared with C05)
-    _c18.r18_5_pragma_ranges(ctx)  # a valid version range never reaches the semver library as text it rejects with ValueError (shared with C18)
+    _c18.r18_5_pragma_ranges(ctx)
+    from rules import c04 as _c04e
+
+    _c04e.r04_1_op_table(ctx)  # no op is refused in a mode or version where the AVM has it (shared with C04)  # a valid version range never reaches the semver library as text it rejects with ValueError (shared with C18)
     r01_3e_constructs(ctx)  # every program of the construct family is accepted and lowered (shared with C01)
     return (
         "Exception-escape obligations (asserts and non-PyTeal raises in compile-time code) against a frozen, individually justified table; recursion along block successors; "
